@@ -124,7 +124,7 @@ def urivalue(uri):
 
          ``url("\"")`` => ``"``
     """
-    uri = uri[uri.find('(') + 1 : -1].strip()
+    uri = uri[uri.find('(') + 1 : -1].strip(' \t\r\n\f')
     if uri and (uri[0] in '\'"') and (uri[0] == uri[-1]):
         return stringvalue(uri)
     else:
